@@ -64,6 +64,11 @@ def main() -> int:
 				pid = os.fork()
 				if pid == 0:
 					code = 0
+					# hard stop for one query (the operations themselves run under the per-operation budget of RealSession)
+					import signal
+					# (CPU time: the real-time timer belongs to the per-operation budget)
+					signal.signal(signal.SIGPROF, signal.SIG_DFL)
+					signal.setitimer(signal.ITIMER_PROF, 300)
 					try:
 						res = one(proj, q, req.get('tpl'))
 						with open(path, 'w', encoding='utf-8') as f:
@@ -75,13 +80,17 @@ def main() -> int:
 					finally:
 						os._exit(code)
 				running[pid] = (q, path)
-			pid, _ = os.wait()
+			pid, status = os.wait()
 			q, path = running.pop(pid)
 			try:
 				with open(path, encoding='utf-8') as f:
 					res = json.load(f)
 			except Exception as e:  # noqa: BLE001
-				res = ['oracle-crash', f'no result file: {e}']
+				import signal
+				if os.WIFSIGNALED(status) and os.WTERMSIG(status) == signal.SIGPROF:
+					res = ['timeout', 'a fresh process did not answer within 300 s of CPU time']
+				else:
+					res = ['oracle-crash', f'no result file: {e}']
 			sys.stdout.write(json.dumps({'id': q['id'], 'res': res}) + '\n')
 			sys.stdout.flush()
 	finally:
